@@ -1,21 +1,25 @@
 package soyhtml
 
 import (
-	"bytes"
 	"unicode/utf8"
 
 	"github.com/robfig/soy/data"
 )
 
-// H_escape: the HTML escaper on every string of n bytes (all 256 values): no raw special
-// character in the output and the output decodes back to exactly the value.
+var c03EscapeTofu *Tofu
+
+// H_escape: the HTML escaper, reached through the public API (an autoescaped print of $x rendered
+// by a Renderer), on every string of n bytes (all 256 values): no raw special character in the
+// output and the output decodes back to exactly the value.
 func H_escape(n int) {
 	s := verifString(n)
-	var buf bytes.Buffer
-	htmlEscapeString(&buf, s)
-	out := buf.String()
+	if c03EscapeTofu == nil {
+		c03EscapeTofu = verifMustCompile("{namespace e}\n/** @param x */\n{template .t}\n{$x}\n{/template}\n")
+	}
+	out, err := verifRender(c03EscapeTofu, "e.t", data.Map{"x": data.String(s)})
 	verifObserve("in", s)
 	verifObserve("out", out)
+	verifAssert(err == nil, "render failed")
 	dec, ok := decodeEntities(out)
 	verifAssert(ok, "raw special character or malformed entity in escaped output")
 	verifAssert(dec == s, "escaped output does not decode to the value")
